@@ -17,7 +17,7 @@ def fmt_op(op):
     return f'{op[0]}({op[1]})'
 
 
-def check_case(prog, env, pid, want_schedules=True, forms=None):
+def check_case(prog, env, pid, want_schedules=True, forms=None, sched_cap=48):
     """run one (program, environment) under the natural schedule and all relevant
     rank permutations; evaluate monitors for `pid`.
     returns (violations [(kind, msg, sched_desc)], counters dict, outcome token)"""
@@ -30,7 +30,7 @@ def check_case(prog, env, pid, want_schedules=True, forms=None):
     cnt['prompts'] += len(r0.prompts)
     results = [(r0, None)]
     if want_schedules:
-        orders, complete = e2a.schedules_for(r0)
+        orders, complete = e2a.schedules_for(r0, cap=sched_cap)
         if not complete:
             cnt['schedule_caps'] = 1
         for order in orders:
@@ -162,7 +162,7 @@ def _work(arg):
         nprog += 1
         for env in e2a.environments(prog, reduced=reduced):
             ncase += 1
-            viols, cnt, oc = check_case(prog, env, pid, forms=forms)
+            viols, cnt, oc = check_case(prog, env, pid, forms=forms, sched_cap=48 if reduced else 160)
             for k, v in cnt.items():
                 counters[k] = counters.get(k, 0) + v
             outcomes[oc] = outcomes.get(oc, 0) + 1
